@@ -1,21 +1,51 @@
 /-
   C09  Each host gets the right user, transport, rank and the verbatim command.
-  PROPERTY THEOREMS ONLY (helper lemmas: PdshVerif/Exec/Lemmas.lean, PdshVerif/Opt/RcmdLemmas.lean).
+  PROPERTY THEOREMS ONLY (helper lemmas: PdshVerif/Exec/{Lemmas,XrcmdLemmas,XrcmdThms,XrcmdSpec}.lean,
+  PdshVerif/Opt/RcmdLemmas.lean).
 
-  Models: Exec/Format.lean (pipecmd_format_arg / cmd_args_create char loop with explicit C memory,
-  xrcmd's request), Opt/Rcmd.lean (get_host_rcmd_type, first-wins registry, defaults, rank).
+  Models: Exec/Format.lean (pipecmd_format_arg / cmd_args_create char loop with explicit C memory),
+          Exec/EndToEnd.lean (execcmd + pipecmd call, xrcmd's writes), Exec/Xrcmd.lean (xrcmd's connection
+          set-up: privileged-port loop, EADDRINUSE / ECONNREFUSED handling with back-off, stderr back-connection,
+          request, peer's verdict -- the network is a parameter), Exec/Ssh.lean (sshcmd.c),
+          Opt/Rcmd.lean (get_host_rcmd_type, first-wins registry, defaults, rank).
   Specs:  Exec/Spec.lean (greedy tokenisation + per-token rendering; four NUL-terminated fields),
+          Exec/XrcmdSpec.lean (what an observer of the sockets demands of the handshake),
           Opt/RcmdSpec.lean (first annotated word naming the host, else the defaults chain).
 
-  What is NOT proved here: anything about hostlist.c (host expansion is a parameter of the model),
-  the transports themselves, and that the C code equals the model (that is the correspondence check).
+  clause of the property text                          theorem(s)
+  ---------------------------------------------------  -------------------------------------------------------
+  type/user of the FIRST `type:user@hosts` word         first_word_wins(_reexpand), run_eq_spec(_reexpand),
+    naming the host                                       rcmd_lookup_exact (whole-name key: n1 / n10)
+  the user name arrives whole (or the run is refused)   user_whole_or_refused
+  otherwise -R / PDSH_RCMD_TYPE and -l, otherwise       defaults_chain, defaultName_eq, last_R_wins_R_over_env,
+    the documented defaults                               last_l_wins (composed with C18.precedence)
+  rank = zero-based position in the FINAL list          rank_is_position, contacted_as_specified (composed with
+                                                          C02/C10: the list after exclusions and filters)
+  command text reaches the transport unchanged          exec_end_to_end, rsh_end_to_end, ssh_command_verbatim(_repaired)
+  rsh: request = port, luser, ruser, cmd, NUL each      rshRequest_roundtrip, xrcmd_writes_request, wire_request_exact,
+                                                          request_length; with the connection set-up:
+                                                          xrcmd_meets_spec, xrcmd_request_stderr (the port announced is
+                                                          the port that is listening), xrcmd_request_plain (no stderr
+                                                          channel), xrcmd_unconnected_silent, xrcmd_backoff_bounded
+  exec: %h %u %n %% replaced, everything else kept      formatArg_spec(_partial), escapes_replaced, unknown_preserved,
+                                                          no_percent_id, argv_length_preserved, exec_argv_exact,
+                                                          exec_argv_interactive; witnesses d10_*, d11_witness
+  host expansion (hostlist.c)                            NOT re-proved here: imported -- contacted_as_specified takes
+                                                          the final list from C02's cliWords_correct (and C10 for files)
+
+  NOT proved: that the C code equals the models (correspondence checks (a)-(f) of checks/c09.py); rresvport(),
+  connect(), xpoll(), accept() themselves (parameters of Exec/Xrcmd.lean: `World`); write(2) failing or being
+  short.  The limit on the length of a user name is modelled (Opt/RcmdUser.lean, `user_whole_or_refused`) under the
+  assumption that every -l but the last is within the limit.
 -/
 import PdshVerif.Exec.Lemmas
 import PdshVerif.Exec.EndToEnd
 import PdshVerif.Exec.Ssh
+import PdshVerif.Exec.XrcmdSpec
 import PdshVerif.Opt.RcmdBridge
 import PdshVerif.Props.C18
 import PdshVerif.Opt.RcmdLemmas
+import PdshVerif.Opt.RcmdUser
 
 namespace PdshVerif.C09
 open PdshVerif.Exec PdshVerif.Exec.Spec
@@ -605,6 +635,100 @@ theorem rsh_end_to_end (cfg : Cfg) (words : List Word) (targets : List Str) (ls 
   refine ⟨hi', ?_⟩
   rw [hg]
   exact (wire_request_exact port cfg.luser _ (joinCmd argv) hlu hru (joinCmd_nul_free argv hargv)).1
+
+/-! ## the limit on user names (opt.c login_name_max_len / copy_username / wcoll_arg_process) -/
+
+/-- A REMOTE USER NAME IS EITHER PASSED ON WHOLE OR REFUSES THE RUN: with the limit `m` of the machine
+    (`Gen.MO_LOGIN_NAME_MAX`), a name longer than `m` -- from -l or from any `user@hosts` word -- ends the run
+    before any connection; when all names are within the limit the run is exactly the run the theorems above
+    speak about (so each host gets the name as typed, never a truncated one) -/
+theorem user_whole_or_refused (m : Nat) (re : Bool) (cfg : Cfg) (words : List Word) (targets : List Str) :
+    ((∃ u, cfg.optL = some u ∧ u.length > m) ∨ (∃ w ∈ words, ∃ u, wordUser w = some u ∧ u.length > m) →
+      runChecked (some m) re cfg words targets = .fatal) ∧
+    ((∀ u, cfg.optL = some u → u.length ≤ m) → (∀ w ∈ words, ∀ u, wordUser w = some u → u.length ≤ m) →
+      runChecked (some m) re cfg words targets = (if re then runRe cfg words targets else run cfg words targets)) :=
+  ⟨long_user_refused m re cfg words targets, runChecked_eq m re cfg words targets⟩
+
+/-- a 5-byte name against a limit of 4: refused; the 4-byte name: contacted under exactly that name -/
+example :
+    let cfg : Cfg := ⟨["exec".toList], ["exec".toList], none, none, none, "me".toList⟩
+    runChecked (some 4) true cfg [⟨"abcde@h1".toList, [['h', '1']], [['h', '1']]⟩] [['h', '1']] = .fatal ∧
+    runChecked (some 4) true cfg [⟨"abcd@h1".toList, [['h', '1']], [['h', '1']]⟩] [['h', '1']] =
+      .lines [⟨some "exec".toList, ['h', '1'], "abcd".toList, 0⟩] := by
+  decide
+
+/-! ## the rsh handshake: privileged-port loop, stderr back-connection, request (src/modules/xrcmd.c) -/
+
+/-- THE HANDSHAKE MEETS ITS SPECIFICATION IN EVERY WORLD (Exec/XrcmdSpec.lean `meets`): whichever reserved
+    ports are busy, however often and with whichever error connect() fails, whether or not sleep() is
+    interrupted, whatever xpoll()/accept() report about the back-connection and whatever the peer answers --
+    no byte is written before a connect() has succeeded, and a call that returns a socket has written exactly
+    port NUL luser NUL ruser NUL cmd NUL, `port` being the number of a socket of this call that IS LISTENING
+    when the first byte goes out (empty when no stderr channel was asked for). -/
+theorem xrcmd_meets_spec (w : Xrcmd.World) (errCh : Bool) (luser ruser cmd : List Char) :
+    Xrcmd.Spec.meets errCh luser ruser cmd (Xrcmd.xrcmd w errCh luser ruser cmd).ok
+      (Xrcmd.xrcmd w errCh luser ruser cmd).evs = true :=
+  Xrcmd.Spec.xrcmd_meets w errCh luser ruser cmd
+
+/-- ... in terms of what the peer parses: with the stderr channel the first field is the decimal number of the
+    port rresvport() bound when started DIRECTLY BELOW the port of the connected socket -- skipping busy ports
+    is rresvport's business, the number announced is the one it returned -- and that socket was bound and put
+    into the listening state immediately before the number was written -/
+theorem xrcmd_request_stderr (w : Xrcmd.World) (luser ruser cmd : List Char)
+    (hl : nul ∉ luser) (hr : nul ∉ ruser) (hc : nul ∉ cmd)
+    (h : (Xrcmd.xrcmd w true luser ruser cmd).ok = true) :
+    ∃ p p2 pre post,
+      (Xrcmd.connectLoop w w.conns (Xrcmd.IPPORT_RESERVED - 1) 1 []).1 = some p ∧ w.resv (p - 1) = some p2 ∧
+      (Xrcmd.xrcmd w true luser ruser cmd).evs =
+        pre ++ [Xrcmd.Ev.bind p2, Xrcmd.Ev.listen p2, Xrcmd.Ev.write (Nat.toDigits 10 p2 ++ [nul])] ++ post ∧
+      (∀ e ∈ pre, e.isWrite = false) ∧
+      parseRequest (Xrcmd.writesOf (Xrcmd.xrcmd w true luser ruser cmd).evs).flatten =
+        some (Nat.toDigits 10 p2, luser, ruser, cmd) := by
+  obtain ⟨p, p2, src, pre, hloop, hnw, hres, _, _, _, _, he⟩ := Xrcmd.xrcmd_ok_stderr w luser ruser cmd h
+  refine ⟨p, p2, pre, [Xrcmd.Ev.accept src, Xrcmd.Ev.close p2, Xrcmd.Ev.write (luser ++ [nul]),
+    Xrcmd.Ev.write (ruser ++ [nul]), Xrcmd.Ev.write (cmd ++ [nul])], by rw [hloop], hres, ?_, hnw, ?_⟩
+  · rw [he]; simp [List.append_assoc]
+  · rw [he, Xrcmd.writesOf_append, Xrcmd.writesOf_no_write pre hnw]
+    simp only [Xrcmd.writesOf, List.filterMap_cons, List.filterMap_nil, List.nil_append]
+    rw [Xrcmd.Spec.writes_flatten_stderr]
+    exact rshRequest_roundtrip (some p2) luser ruser cmd hl hr hc
+
+/-- without the stderr channel (fd2p == NULL) the port field is empty -/
+theorem xrcmd_request_plain (w : Xrcmd.World) (luser ruser cmd : List Char)
+    (hl : nul ∉ luser) (hr : nul ∉ ruser) (hc : nul ∉ cmd)
+    (h : (Xrcmd.xrcmd w false luser ruser cmd).ok = true) :
+    parseRequest (Xrcmd.writesOf (Xrcmd.xrcmd w false luser ruser cmd).evs).flatten =
+      some ([], luser, ruser, cmd) := by
+  obtain ⟨p, pre, _, hnw, he⟩ := Xrcmd.xrcmd_ok_plain w luser ruser cmd h
+  rw [he, Xrcmd.writesOf_append, Xrcmd.writesOf_no_write pre hnw]
+  simp only [Xrcmd.writesOf, List.filterMap_cons, List.filterMap_nil, List.nil_append]
+  rw [Xrcmd.Spec.writes_flatten_plain]
+  exact rshRequest_roundtrip none luser ruser cmd hl hr hc
+
+/-- a call that never got a connection fails and has written nothing: no user name and no command text
+    reaches anybody -/
+theorem xrcmd_unconnected_silent (w : Xrcmd.World) (errCh : Bool) (luser ruser cmd : List Char)
+    (h : (Xrcmd.connectLoop w w.conns (Xrcmd.IPPORT_RESERVED - 1) 1 []).1 = none) :
+    (Xrcmd.xrcmd w errCh luser ruser cmd).ok = false ∧
+    Xrcmd.writesOf (Xrcmd.xrcmd w errCh luser ruser cmd).evs = [] :=
+  Xrcmd.xrcmd_unconnected w errCh luser ruser cmd h
+
+/-- the retries on ECONNREFUSED are bounded: pauses of 1, 2, 4, 8, 16 seconds at most, 31 seconds in all, in
+    every world (the connect time-out of C07 interrupts them earlier) -/
+theorem xrcmd_backoff_bounded (w : Xrcmd.World) (errCh : Bool) (luser ruser cmd : List Char) :
+    Xrcmd.Spec.sleepSum (Xrcmd.xrcmd w errCh luser ruser cmd).evs ≤ 31 :=
+  Xrcmd.Spec.xrcmd_sleeps_at_most_31 w errCh luser ruser cmd
+
+/-- non-vacuity, and the situation of a busy port: 1023 answers EADDRINUSE, 1022 connects, 1021 is taken by
+    somebody else, so the stderr socket is 1020 -- and 1020 is what the request says -/
+example :
+    let w : Xrcmd.World := ⟨fun s => if s = 1021 then some 1020 else some s, [.addrInUse, .ok], true, true,
+                            some 1000, some [nul]⟩
+    (Xrcmd.xrcmd w true "me".toList "you".toList "id".toList).ok = true ∧
+    Xrcmd.mergeWrites (Xrcmd.xrcmd w true "me".toList "you".toList "id".toList).evs =
+      [.bind 1023, .connect 1023 .addrInUse, .close 1023, .bind 1022, .connect 1022 .ok, .bind 1020, .listen 1020,
+       .write "1020\x00".toList, .accept 1000, .close 1020, .write "me\x00you\x00id\x00".toList] := by
+  decide
 
 /-! ## from the command line: option precedence (C18's table), target assembly and exclusion (C10, C02) -/
 
